@@ -198,6 +198,16 @@ def run(item):
         if kind[0] == 'free':
             cmp(hname, getattr(tr0, hname), float(kind[1]))
     ch.proved.append('start vector read-back (%d entries, ground)' % checks)
+    twins_ok = twins_bad = 0
+    for tgt, val in final.values():
+        if tgt.op == 'u' and isinstance(val, E) and N >= 2:
+            # twin (vacuity): the control of interval 0 does not start at the guess evaluated at the NEXT interval's start
+            wrong = ev(val, lambda op, a: tr0.tc[1], I.fdom)
+            if not close(float(tr0.U[0][tgt.a[0]]), float(wrong)):
+                twins_ok += 1
+            else:
+                twins_bad += 1
+            break
     # ---- (b) expressions evaluated at the initial point, for all guessed t0/T ------------------------------
     tguess = [(tgt, val) for tgt, val in final.values() if isinstance(val, E)]
     if tguess and log.exprs:
@@ -282,7 +292,7 @@ def run(item):
             V('order-dependence', 'x0', 'guesses given after the first transcription give a different starting point than the same guesses given before (entries %s: %s vs %s)' % (bad[:6], [xa[i] for i in bad[:6]], [xb[i] for i in bad[:6]]))
         else:
             ch.proved.append('before/after transcription: same starting point')
-    r = result(I, ch, {'violations': viol, 'shape': '%s|%s|%s|%s' % (cfg.tag(), when, spec.t0[0] + '/' + spec.T[0], repr(guesses)),
+    r = result(I, ch, {'violations': viol, 'twins_ok': twins_ok, 'twins_bad': twins_bad, 'shape': '%s|%s|%s|%s' % (cfg.tag(), when, spec.t0[0] + '/' + spec.T[0], repr(guesses)),
                        'sample': {'cfg': cfg.tag(), 'when': when, 'guesses': [(repr(a), repr(b_) if isinstance(b_, E) else str(b_)) for a, b_ in guesses], 'entries_checked': checks,
                                   'logged_expressions': len(log.exprs)}})
     r['obligations'] += checks
